@@ -33,19 +33,19 @@ type schedOp struct {
 }
 
 type schedRun struct {
-	w        *Workload
-	fs       *simos.FS
-	base     *simos.FS
-	log      []*simos.Op
-	ops      []*schedOp
-	sim      *simrt.Sim
-	startErr *StartError
-	finalPre map[string][]OutRow // after Shutdown returned (C35)
-	finalErr map[string]error
-	shutErr  error
-	shutAt   int // fs log index when Shutdown returned
-	probes   map[string]int64
-	cold     bool // clients started before the background WAL writer task ran
+	w            *Workload
+	fs           *simos.FS
+	base         *simos.FS
+	log          []*simos.Op
+	ops          []*schedOp
+	sim          *simrt.Sim
+	startErr     *StartError
+	finalPre     map[string][]OutRow // after Shutdown returned (C35)
+	finalErr     map[string]error
+	shutErr      error
+	shutAt       int // fs log index when Shutdown returned
+	probes       map[string]int64
+	cold         bool // clients started before the background WAL writer task ran
 	stuckClients int
 }
 
@@ -264,8 +264,8 @@ func historyViolations(sr *schedRun, res *Result, prop string, seed uint64, useP
 		bk[b.Key()] = b
 	}
 	// index writes
-	fixedW := map[string]map[int64][]regWrite{} // key -> interval -> writes
-	varW := map[string]map[int64]*schedOp{}     // key -> id -> write
+	fixedW := map[string]map[int64][]regWrite{}            // key -> interval -> writes
+	varW := map[string]map[int64]*schedOp{}                // key -> id -> write
 	transient := map[string]map[int64]map[int64]*schedOp{} // key -> interval -> id overwritten inside its own request -> write
 	for _, op := range sr.ops {
 		if op.kind != "write" {
